@@ -370,11 +370,18 @@ func (w *DefaultWriter) Flush() (err error) {
 }
 
 type fakeIOWriter struct {
-	bw *BytesWriter
+	bw      *BytesWriter
+	flushed bool // a flush has already handed the initial contents to the target
 }
 
 func (w *fakeIOWriter) Write(p []byte) (n int, err error) {
-	*w.bw.flushBytes = p
+	if w.flushed {
+		// p is a fresh buffer that no longer starts with what was flushed before
+		*w.bw.flushBytes = append(*w.bw.flushBytes, p...)
+	} else {
+		*w.bw.flushBytes = p
+		w.flushed = true
+	}
 	return len(p), nil
 }
 
